@@ -334,6 +334,9 @@ static void ts_verif_acquire_yield(int kind, const volatile void *address) {
   (void)__atomic_load_n((const volatile uint32_t *)address, __ATOMIC_ACQUIRE);
 }
 
+bool ts_verif_acquire_ownership_reads = false;
+
 void ts_verif_install_acquire_hook(void) {
   ts_verif_yield_hook = ts_verif_acquire_yield;
+  ts_verif_acquire_ownership_reads = true;
 }
